@@ -25,7 +25,7 @@ func verifConfigHistory(name string, ops []int, vals []int32, opts ...interface{
 	for k, op := range ops {
 		switch op {
 		case 0:
-			_ = ds.DeleteAttribute(names[k])
+			_ = ds.DeleteAttribute(names[(k+int(vals[k]&7))%9]) // any of the nine: incl. the record with the largest hash
 		case 1:
 			_ = ds.WriteAttribute(names[k], vals[k])
 		case 2:
@@ -47,6 +47,9 @@ func verifConfigsScript(nops int, variant int) {
 	for i := range ops {
 		ops[i] = vrt.Choice(3)
 		vals[i] = vrt.I32()
+		if ops[i] == 0 {
+			vals[i] = int32(vrt.Choice(8)) // which name is deleted (forked)
+		}
 	}
 	ref := verifConfigHistory("c19a.h5", ops, vals)
 	var other []byte
